@@ -26,12 +26,15 @@ Region(bs, i) == IF i > K THEN "" ELSE "B" \o S(i) \o ":\n" \o Stmt(bs[i]) \o Re
 Prog(bs) == "main:\n" \o (IF Reach THEN "    beqz a2, B1\n" ELSE "") \o "    j end\n" \o Region(bs, 1)
             \o "end:\n    li a7, 10\n    ecall\n"
 Init == phase = "start" /\ blocks = <<>>
-Pick == /\ phase = "start"
-        /\ \E bs \in [1..K -> Kinds] : blocks' = bs
-        /\ phase' = "emit"
+\* one statement at a time (the set of all K-tuples is too large for TLC to build at K = 5)
+Pick == /\ phase = "start" /\ Len(blocks) < K
+        /\ \E x \in Kinds : blocks' = Append(blocks, x)
+        /\ UNCHANGED phase
+Done == /\ phase = "start" /\ Len(blocks) = K
+        /\ phase' = "emit" /\ UNCHANGED blocks
 Emit == /\ phase = "emit"
         /\ PrintT("CASE " \o ToJson([text |-> Prog(blocks), k |-> K, reach |-> Reach]))
         /\ phase' = "done" /\ UNCHANGED blocks
-Next == Pick \/ Emit
+Next == Pick \/ Done \/ Emit
 Spec == Init /\ [][Next]_vars
 =============================================================================
